@@ -112,8 +112,10 @@ def dds_hash(x: Any) -> PyHash:
         if isinstance(elt, int):
             if -(2 ** 31) <= elt < 2 ** 31:
                 return _algo_bytes(struct.pack("!l", elt))
-            # Too large for the 4-byte packing (struct.error): hash the decimal form instead.
-            return _algo_str("__DDS_INT__" + str(elt))
+            # Too large for the 4-byte packing (struct.error): hash the two's complement bytes, tagged.
+            # (Not the decimal form: str() refuses integers of more than 4300 digits.)
+            n_bytes = (elt.bit_length() + 8) // 8
+            return _algo_bytes(b"__DDS_INT__" + elt.to_bytes(n_bytes, "big", signed=True))
         if isinstance(elt, CanonicalPath):
             return _algo_str(repr(elt))
         if isinstance(elt, list):
